@@ -172,8 +172,9 @@ def param_panel(rep, model):
                     rep.compare('PANEL-DATA', inst + ':y', pts[0]['where'] or site, T.strip_nd(a[1]), want_y, ctx.unmodelled)
                 else:
                     x, y = T.strip_nd(a[0]), T.strip_nd(a[1])
-                    okx = x[0] == 'list' and len(x[1]) == 2 and x[1][1] == span and mentions(x[1][0], [cols['sample_last_' + side], cols['sample_next_' + side], timesw])
-                    oky = y[0] == 'list' and len(y[1]) == 2 and y[1][1] == thr and mentions(y[1][0], [cols['monotonicity']])
+                    okx = x[0] == 'list' and len(x[1]) == 2 and x[1][1] == span and \
+                        mentions(x[1][0], [('col', 'S', 'sample_last_' + side), ('col', 'S', 'sample_next_' + side), timesw])
+                    oky = y[0] == 'list' and len(y[1]) == 2 and y[1][1] == thr and mentions(y[1][0], [('col', 'S', 'monotonicity')])
                     if okx and oky:
                         rep.ok('PANEL-DATA', inst, pts[0]['where'] or site, found='steps from last to next side extremum times; threshold line over the window')
                     else:
